@@ -220,10 +220,18 @@ impl<F: Write + Seek> Allocator<F> {
     ) -> io::Result<u32> {
         debug_assert_ne!(start_sector_id, consts::END_OF_CHAIN);
         let mut last_sector_id = start_sector_id;
+        // The chain may come from a damaged file, so don't trust it to be
+        // well-formed: look up each link with bounds checking, and give up
+        // if the chain is longer than the FAT itself (i.e. it has a cycle).
+        let mut num_links = 0;
         loop {
-            let next = self.fat[last_sector_id as usize];
+            let next = self.next(last_sector_id)?;
             if next == consts::END_OF_CHAIN {
                 break;
+            }
+            num_links += 1;
+            if num_links > self.fat.len() {
+                invalid_data!("Sector chain contains a cycle");
             }
             last_sector_id = next;
         }
